@@ -401,7 +401,8 @@ def run(ctx):
         tun = s.facts.get("self.proxy_is_tunneling", (None, None))[0]
         cfgd = s.facts.get("self.server_hostname", (None, None))[1]
         tags = set(sh.tags) if sh is not None else set()
-        key = (tuple(sorted(tags)), tun, cfgd)
+        SETTINGS = ("cert_reqs", "assert_hostname", "assert_fingerprint", "ssl_context", "ca_certs", "ca_cert_dir", "ca_cert_data")
+        key = (tuple(sorted(tags)), tun, cfgd, tuple(tuple(sorted(kw[p_].tags)) if p_ in kw else None for p_ in SETTINGS))
         if key in seen:
             continue
         seen.add(key)
